@@ -828,3 +828,57 @@ package uhppote
 //@                      (E.Door1State <==> B[28] == 1) && (E.Door2State <==> B[29] == 1) && (E.Door3State <==> B[30] == 1) && (E.Door4State <==> B[31] == 1) &&
 //@                      (E.Door1Button <==> B[32] == 1) && (E.Door2Button <==> B[33] == 1) && (E.Door3Button <==> B[34] == 1) && (E.Door4Button <==> B[35] == 1) &&
 //@                      E.SystemError == B[36] && E.SequenceId == wire.u32(B, 40) && E.SpecialInfo == B[48] && E.RelayState == B[49] && E.InputState == B[50]
+
+// ---- C11: discovery -------------------------------------------------------------------------------
+// driver.Broadcast: one request handed to the driver (kind 4 = discovery broadcast); the replies collected
+// within the timeout are recorded in recv (their number only); a driver failure is counted in sent.fail
+//@ func driver.Broadcast
+//@   params addr, request
+//@   returns (res, err)
+//@   requires req: len(request) == 64 && addr != nil
+//@   modifies sent.n, sent.kind, sent.iplen, sent.ipb, sent.port, sent.bytes, recv.n, sent.fail
+//@   define N0 = old(sent.n)
+//@   ensures sent:   sent.n == N0 + 1 && sent.kind[N0] == 4 && sent.port[N0] == addr.Port && sent.iplen[N0] == len(addr.IP)
+//@   ensures dest:   forall k int :: 0 <= k && k < len(addr.IP) ==> sent.ipb[N0][k] == addr.IP[k]
+//@   ensures bytes:  forall k int :: 0 <= k && k < 64 ==> sent.bytes[N0][k] == old(request[k])
+//@   ensures ok:     err == nil ==> recv.n == old(recv.n) + len(res) && sent.fail == old(sent.fail)
+//@   ensures fail:   err != nil ==> res == nil && recv.n == old(recv.n) && sent.fail == old(sent.fail) + 1
+
+// broadcast: executed in place in GetDevices (generic over `any`); its filter loop keeps only decodable
+// 64-byte replies, in order, and never fails because of a bad one
+//@ func (*uhppote).broadcast
+//@   params u, request, reply
+//@   returns (res, err)
+//@   attr inline
+//@   loop 1
+//@     invariant idx:   -1 <= rangeindex && rangeindex < len(responses) || (rangeindex == -1 && len(responses) == 0)
+//@     invariant count: len(replies) <= rangeindex + 1
+//@     invariant kind:  forall k int :: 0 <= k && k < len(replies) ==> dyntype(replies[k]) == dyntype(reply)
+//@     invariant own:   fresh(replies)
+
+//@ func (*uhppote).GetDevices
+//@   params u
+//@   returns (res, err)
+//@   requires client: u != nil && u.driver != nil
+//@   modifies sent.n, sent.kind, sent.iplen, sent.ipb, sent.port, sent.bytes, recv.n, sent.fail
+//@   attr noaxioms = time.
+//@   attr opaque = bcd.
+//@   define N0 = old(sent.n)
+//@   define B = sent.bytes[N0]
+//@   ensures once:    sent.n == N0 + 1 && sent.kind[N0] == 4
+//@   ensures wire:    wire.header(B, 0x94, 0) && wire.zero(B, 8, 64)
+//@   ensures route:   (u.broadcastAddr.AddrPort.ip.kind == 1 && u.broadcastAddr.AddrPort.port != 0 ==> dest4(N0, u.broadcastAddr.AddrPort.ip.bits, u.broadcastAddr.AddrPort.port)) &&
+//@                    (u.broadcastAddr.AddrPort.ip.kind == 0 ==> dest4(N0, 4294967295, 60000))
+//@   ensures total:   sent.fail == old(sent.fail) ==> err == nil
+//@   ensures failed:  sent.fail != old(sent.fail) ==> err != nil && res == nil
+//@   ensures count:   err == nil ==> len(res) <= recv.n - old(recv.n)
+//@   define P = (u.broadcastAddr.AddrPort.ip.kind != 0 ? u.broadcastAddr.AddrPort.port : 60000)
+//@   ensures ports:   err == nil ==> (forall k int :: 0 <= k && k < len(res) ==> (res[k].Address.ip.kind == 0 || res[k].Address.port == P))
+//@   ensures names:   err == nil ==> (forall k int :: 0 <= k && k < len(res) ==> res[k].Name == (has(u.devices, res[k].SerialNumber) ? u.devices[res[k].SerialNumber].Name : ""))
+//@   loop 1
+//@     invariant idx:   -1 <= rangeindex && rangeindex < len(replies) || (rangeindex == -1 && len(replies) == 0)
+//@     invariant count: len(controllers) == rangeindex + 1
+//@     invariant own:   fresh(controllers)
+//@     invariant kind:  forall k int :: 0 <= k && k < len(replies) ==> dyntype(replies[k]) == typeid("messages.GetDeviceResponse")
+//@     invariant ports: forall k int :: 0 <= k && k < len(controllers) ==> (controllers[k].Address.ip.kind == 0 || controllers[k].Address.port == P)
+//@     invariant names: forall k int :: 0 <= k && k < len(controllers) ==> controllers[k].Name == (has(u.devices, controllers[k].SerialNumber) ? u.devices[controllers[k].SerialNumber].Name : "")
